@@ -341,7 +341,9 @@ func (p *c15Prop) Run(ci interface{}) interface{} {
 		topic := fmt.Sprintf("nw%d/t", j)
 		before := w.NPubs()
 		nack := len(t.Others)
-		_ = t.SendL(mkPublish(ver, topic, []byte{byte(j)}, 1, true, uint16(10+j)))
+		// the payload makes the packet about as long as the CONNECT was, user name and all: what the connection keeps
+		// of its CONNECT must be its own
+		_ = t.SendL(mkPublish(ver, topic, append([]byte{byte(j)}, []byte("xxxxxxxxxxxxx")...), 1, true, uint16(10+j)))
 		if !t.WaitFor(5*time.Second, func() bool { return len(t.Others) > nack }) {
 			obs.Err = "no puback"
 			return obs
